@@ -757,6 +757,11 @@ func (p *Path) nilCheck(ptr Ptr) {
 
 func (p *Path) load(ptr Ptr, t types.Type) Value {
 	p.nilCheck(ptr)
+	if o := p.obj(ptr.Obj); o.NoInit && !p.lenient {
+		if _, isBase := p.run.base[ptr.Obj]; isBase && o.Epoch == -1 {
+			p.unsup("read of %s, a package-level variable whose package initialiser is not interpreted", o.Name)
+		}
+	}
 	return p.run.unflatten(t, func(i int) Value { return p.loadCell(ptr, i) }, 0)
 }
 
